@@ -103,6 +103,19 @@ def cases(draw):
     if draw(st.integers(0, 3)) == 0:
         tgt = draw(st.sampled_from(spaces))
         extra.append(["set_ref", [], "wm", ["o", list(tgt.path)], None])
+    # a cells whose name extends another cells' name, holding inputs (file names in _data/ share a prefix)
+    for s in spaces:
+        own = [n for n in s.cells if gen.rank_of(n) >= 0 and s.cells[n].cached]
+        if own and draw(st.integers(0, 2)) == 0:
+            n = draw(st.sampled_from(own))
+            longer = n + draw(st.sampled_from(["_adj", "x", "0"]))
+            cdef = {"name": longer, "params": [["x", None]], "expr": ["var", "x"], "cached": True, "allow_none": None,
+                    "form": "lambda", "tick": False}
+            if G.find_cells(s, longer) is None:
+                op = ["new_cells", list(s.path), cdef]
+                extra.append(op)
+                apply_ref(G, op)
+                extra.append(["set_value", list(s.path), longer, [1], 41])
     # inputs
     sids = [s.path for s in spaces] + gen.item_sids(G, 2)
     for _ in range(draw(st.integers(0, 4))):
